@@ -52,7 +52,7 @@ def result_fields(res):
 class HVPerformAction(Contract):
     qualname = "nasim.envs.host_vector.HostVector.perform_action"
     tags = {
-        "C01": ("C01",), "C05": ("C05",), "C07": ("C07",), "C04": ("C04",), "C13": ("C13",),
+        "C01": ("C01",), "C05": ("C05", "C20"), "C07": ("C07",), "C04": ("C04", "C20"), "C13": ("C13",),
         "spec": ("C01", "C02", "C03", "C04", "C05", "C07", "C12", "C13"),
         "raises": ("C01", "C07", "C10"),
     }
